@@ -10,6 +10,7 @@ import (
 	"os/exec"
 	"path/filepath"
 	"runtime"
+	"runtime/pprof"
 	"sort"
 	"strconv"
 	"strings"
@@ -17,6 +18,7 @@ import (
 )
 
 var queryTimeout int
+var debugMaxPaths int
 
 type KnownFinding struct {
 	Property string `json:"property"`
@@ -62,6 +64,8 @@ func main() {
 	solverLog := fs.String("smtlog", "", "write worker-0 SMT-LIB traffic to file")
 	noReplay := fs.Bool("noreplay", false, "skip native replay")
 	replayPath := fs.String("replay", "", "replay a recorded violation file against the real code")
+	maxPaths := fs.Int("maxpaths", 0, "stop each harness after this many paths (debugging)")
+	cpuprof := fs.String("cpuprofile", "", "write CPU profile")
 	qt := fs.Int("qt", 0, "per-query solver timeout in ms (default 60000 quick / 300000 thorough)")
 	fs.Parse(os.Args[3:])
 	if t := os.Getenv("VERIF_TIER"); t != "" {
@@ -78,7 +82,15 @@ func main() {
 		os.Exit(2)
 	}
 	queryTimeout = *qt
-	os.Exit(runCheck(id, *tier, *only, seed, *workers, *verbose, *noMerge, *solverLog, *noReplay, *replayPath))
+	if *cpuprof != "" {
+		f, _ := os.Create(*cpuprof)
+		pprof.StartCPUProfile(f)
+		defer pprof.StopCPUProfile()
+	}
+	debugMaxPaths = *maxPaths
+	code := runCheck(id, *tier, *only, seed, *workers, *verbose, *noMerge, *solverLog, *noReplay, *replayPath)
+	pprof.StopCPUProfile()
+	os.Exit(code)
 }
 
 func runCheck(id, tier, only string, seed, workers int, verbose, noMerge bool, solverLog string, noReplay bool, replayPath string) int {
@@ -168,11 +180,14 @@ func runCheck(id, tier, only string, seed, workers int, verbose, noMerge bool, s
 			inconcl = append(inconcl, h.Name+": "+err.Error())
 			continue
 		}
+		if debugMaxPaths > 0 {
+			h.MaxPaths = debugMaxPaths
+		}
 		r := eng.explore(h, workers)
 		results = append(results, r)
 		if verbose || true {
-			fmt.Printf("harness %-28s paths=%d ends=%v obligations=%d discharged=%d queries=%d(fallback %d) solver=%.1fs wall=%.1fs merges=%d\n",
-				h.Name, r.Paths, r.EndKinds, r.Stats.Obligations, r.Stats.Discharged, r.Solver.Queries, r.Solver.Fallbacks, r.Solver.Time.Seconds(), r.Wall.Seconds(), r.Stats.Merges)
+			fmt.Printf("harness %-28s paths=%d ends=%v obligations=%d discharged=%d queries=%d(fallback %d) solver=%.1fs wall=%.1fs merges=%d simpq=%d ivdec=%d instrs=%d\n",
+				h.Name, r.Paths, r.EndKinds, r.Stats.Obligations, r.Stats.Discharged, r.Solver.Queries, r.Solver.Fallbacks, r.Solver.Time.Seconds(), r.Wall.Seconds(), r.Stats.Merges, r.Stats.SimpQueries, r.Stats.IntervalDecided, r.Stats.Instrs)
 		}
 		for _, s := range r.Inconcl {
 			inconcl = append(inconcl, h.Name+": "+s)
